@@ -512,7 +512,11 @@ def run_check(check: Check, tier: str = "quick", seed: int = 0) -> int:
                 errors.append(f"vacuity: outcome '{cov}' of {fr.key} [{type(c).__name__}] is not reachable under the "
                               f"contract (reached: {sorted(fr.outcomes)})")
     # failed obligations -> known finding or violation
-    os.makedirs(os.path.join(VERIF, "replays", prop), exist_ok=True)
+    rdir = os.path.join(VERIF, "replays", prop)
+    os.makedirs(rdir, exist_ok=True)
+    for f in os.listdir(rdir):                       # replay files describe THIS run only
+        if f.endswith(".json"):
+            os.remove(os.path.join(rdir, f))
     for name, d in sorted(by.items()):
         if d["unknown"] and not d["sat"]:
             # inconclusive on the full path condition; a counter-model of the quantifier-free part is only a
